@@ -14,7 +14,7 @@ from .c01 import shape_sig
 
 PROP = 'C06'
 LEVEL = 'fault_enumeration'
-N = {'quick': 1000, 'thorough': 40000}
+N = {'quick': 400, 'thorough': 40000}
 BATCH = 8
 RULE = ('seeded small worlds (1-4 segments, <=3 channels, contiguous / interleaved / strings / no-metadata '
         'segments, last lead-in explicit or carrying the 0xFFFFFFFFFFFFFFFF marker); the producer crashes at EVERY '
